@@ -22,6 +22,50 @@ func (p *Prog) CallStr(ci ssa.CallInstruction) string {
 // successTargets: predicate for the success exits of fn.
 func successTargets(fn *ssa.Function) instrPred { return instrSet(SuccessExits(fn)) }
 
+// implicitSuccessFact: `return f(...)` as the error (or bool) result: on the success
+// interpretation of that exit the fact (f(...) == nil) / f(...) holds.
+func (p *Prog) implicitSuccessFact(ret *ssa.Return) string {
+	if len(ret.Results) == 0 {
+		return ""
+	}
+	op := ret.Results[len(ret.Results)-1]
+	if sv := spilledValue(op, ret); sv != nil {
+		op = sv
+	}
+	r := p.R(ret.Parent())
+	if types.Identical(op.Type(), errorType) {
+		if _, isConst := op.(*ssa.Const); isConst {
+			return ""
+		}
+		return EQ(r.E(op), "nil")
+	}
+	if b, ok := op.Type().Underlying().(*types.Basic); ok && b.Kind() == types.Bool {
+		if _, isConst := op.(*ssa.Const); isConst {
+			return ""
+		}
+		return posFact(r, op)
+	}
+	return ""
+}
+
+// successTargetsFor: success exits of fn, except those that return a call result
+// directly and whose implicit success fact matches the pattern.
+func (p *Prog) successTargetsFor(fn *ssa.Function, re *regexp.Regexp) instrPred {
+	var out []ssa.Instruction
+	for _, e := range Exits(fn) {
+		if e.Kind == exitFailure {
+			continue
+		}
+		if e.Kind == exitMaybe {
+			if f := p.implicitSuccessFact(e.Ret); f != "" && (re.MatchString(f) || p.callImplies(fn, e.Ret.Results[len(e.Ret.Results)-1], re, 2)) {
+				continue
+			}
+		}
+		out = append(out, e.Ret)
+	}
+	return instrSet(out)
+}
+
 // RequireFact: every path from fn's entry to a target instruction takes an edge
 // whose canonical fact matches pattern. Decided by deleting the matching edges
 // from the CFG and searching for a remaining path (the witness).
@@ -34,24 +78,44 @@ func (c *Check) RequireFact(fn *ssa.Function, rule, name, pattern string, target
 	}
 	edges := c.p.MatchEdges(fn, re)
 	if target == nil {
-		target = successTargets(fn)
+		target = c.p.successTargetsFor(fn, re)
 		targetDesc = "success exit"
-	}
-	if len(edges) == 0 {
-		c.Violated(rule, construct, c.p.Pos(fn.Pos()), "no branch establishes the fact /"+pattern+"/ reason=not-established")
-		return false
+	} else {
+		found := false
+		for _, b := range fn.Blocks {
+			for _, in := range b.Instrs {
+				if target(in) {
+					found = true
+				}
+			}
+		}
+		if !found {
+			c.Violated(rule, construct, c.p.Pos(fn.Pos()), "the "+targetDesc+" this obligation is about was not found in the function reason=not-established")
+			return false
+		}
 	}
 	avoid := map[edgeKey]bool{}
 	for _, e := range edges {
 		avoid[e.Key()] = true
 	}
 	ps := &PathSearch{Fn: fn, AvoidEdges: avoid, IsTarget: target}
-	if t, path := ps.Find(); t != nil {
-		c.Violated(rule, construct, c.p.InstrPos(t), fmt.Sprintf("a path reaches %s without establishing /%s/", targetDesc, pattern), c.p.describePath(path)...)
+	t, path := ps.Find()
+	if t == nil {
+		pos := c.p.Pos(fn.Pos())
+		detail := "fact on every path to " + targetDesc + " (implied by the returned call)"
+		if len(edges) > 0 {
+			pos = c.p.InstrPos(edges[0].Block.Instrs[len(edges[0].Block.Instrs)-1])
+			detail = fmt.Sprintf("fact %q on every path to %s (%d edge(s))", edges[0].Fact, targetDesc, len(edges))
+		}
+		c.Held(rule, construct, pos, detail)
+		return true
+	}
+	if len(edges) == 0 {
+		c.Violated(rule, construct, c.p.Pos(fn.Pos()), "no branch establishes the fact /"+pattern+"/ reason=not-established")
 		return false
 	}
-	c.Held(rule, construct, c.p.InstrPos(edges[0].Block.Instrs[len(edges[0].Block.Instrs)-1]), fmt.Sprintf("fact %q on every path to %s (%d edge(s))", edges[0].Fact, targetDesc, len(edges)))
-	return true
+	c.Violated(rule, construct, c.p.InstrPos(t), fmt.Sprintf("a path reaches %s without establishing /%s/", targetDesc, pattern), c.p.describePath(path)...)
+	return false
 }
 
 // RequireCall: every path from entry to a target passes a call whose rendering matches pattern.
@@ -207,4 +271,60 @@ func (p *Prog) necessaryFacts(fn *ssa.Function, target ssa.Instruction) []EdgeFa
 		}
 	}
 	return out
+}
+
+// fctx: a function seen in some caller's terms. The first context of a function is the
+// function itself; the others are the unexported repository helpers it calls, rendered
+// with their parameters bound to the call's arguments. Rules about a particular value or
+// instruction look for it in every context, so that moving a computation into a private
+// helper does not hide it.
+type fctx struct {
+	fn     *ssa.Function
+	r      *Renderer
+	call   ssa.CallInstruction // nil for the function itself
+	parent *ssa.Function
+}
+
+func (p *Prog) helperContexts(fn *ssa.Function) []fctx {
+	out := []fctx{{fn: fn, r: p.R(fn)}}
+	seen := map[*ssa.Function]bool{fn: true}
+	for _, ci := range callsIn(fn) {
+		g := ci.Common().StaticCallee()
+		if g == nil || g.Blocks == nil || g.Parent() != nil || seen[g] || !isProdPkgFn(g) {
+			continue
+		}
+		if o, ok := g.Object().(*types.Func); !ok || o.Exported() {
+			continue
+		}
+		seen[g] = true
+		r := p.R(fn)
+		bind := make([]string, len(ci.Common().Args))
+		for i, a := range ci.Common().Args {
+			bind[i] = r.E(a)
+		}
+		out = append(out, fctx{fn: g, r: p.RBound(g, bind, 1), call: ci, parent: fn})
+	}
+	return out
+}
+
+// requireFactCtx: like RequireFact, for a target that lives in context x. In a helper context
+// the fact may be established inside the helper (its facts seen in the caller's terms) or by
+// the caller before the call.
+func (c *Check) requireFactCtx(x fctx, rule, name, pattern string, target instrPred, targetDesc string) bool {
+	if x.call == nil {
+		return c.RequireFact(x.fn, rule, name, pattern, target, targetDesc)
+	}
+	c.touch(x.fn)
+	re := regexp.MustCompile(pattern)
+	avoid := map[edgeKey]bool{}
+	for _, ef := range c.p.edgeFactsWith(x.fn, x.r) {
+		if ef.Fact != infeasible && re.MatchString(ef.Fact) {
+			avoid[ef.Key()] = true
+		}
+	}
+	if t, _ := (&PathSearch{Fn: x.fn, AvoidEdges: avoid, IsTarget: target}).Find(); t == nil {
+		c.Held(rule, name+" @ "+FuncKey(x.parent)+" (in helper "+FuncKey(x.fn)+")", c.p.InstrPos(x.call), "fact established inside the helper on every path to "+targetDesc)
+		return true
+	}
+	return c.RequireFact(x.parent, rule, name, pattern, instrSet([]ssa.Instruction{x.call}), "call of "+FuncKey(x.fn)+" ("+targetDesc+")")
 }
